@@ -1,9 +1,15 @@
 """C16 — user text/image embedders and tokenizers get strings, once per row, in row order."""
 from __future__ import annotations
 
+import atexit
+import collections
+import collections.abc
 import itertools
 import json
 import os
+import shutil
+import tempfile
+import types
 
 os.environ.setdefault("TQDM_DISABLE", "1")
 
@@ -33,7 +39,8 @@ SHARD = 150
 RULE = ("DataFrames of 1-8 rows with 1-3 text_embedded / image_embedded / text_tokenized columns (any strings incl. "
         "'nan'/'None'/'' and non-ASCII, missing cells as None / np.nan / float('nan') / pd.NA, object / str / string dtype, five "
         "index labelings), batch_size in {None, 1..n+1}, per-column or shared configs, four tokenizer stub variants, "
-        "through Dataset.materialize or the mapper directly; distinct = distinct (via, per-column (stype, dtype, "
+        "embedder stubs returning float32 / float64 / int64 / float16, through Dataset.materialize or the mapper directly, "
+        "followed by 0-2 further DataFrames through the SAME mapper objects / the dataset's converter; distinct = distinct (via, per-column (stype, dtype, "
         "missing kinds present, n vs batch_size relation, tokenizer variant), shared); non-trivial = every case (n >= 1)")
 TRUSTED = [
     "Coq 8.16.1 kernel + vm_compute (no native_compute)",
@@ -99,21 +106,38 @@ def record(xs):
             "elems": [x if type(x) is str else {"nonstr": type(x).__name__, "repr": repr(x)[:40]} for x in xs]}
 
 
+EMB_DTYPES = {"float32": torch.float32, "float64": torch.float64, "int64": torch.int64, "float16": torch.float16}
+# scale that makes every stub value of the dtype an exact integer (Coq literals)
+EMB_SCALE = {"float32": 8, "float16": 8, "float64": 2 ** 20, "int64": 1}
+
+
+def emb_vals(s, w, dt):
+    """Deterministic output row of the stub embedders for one string.  float64 / int64 values are NOT representable
+    in float32, so any silent down-cast on the way into the frame is visible."""
+    base = D.hash_vec(s, w)                    # k/8 with 0 <= k < 64
+    if dt == "float64":
+        return [(2 ** 40 + 1) + 0.1 + v for v in base]
+    if dt == "int64":
+        return [2 ** 40 + 1 + int(v * 8) for v in base]
+    return list(base)                          # exact in float32 and float16
+
+
 class TextEmbedderStub:
-    def __init__(self, w):
-        self.w, self.calls = w, []
+    def __init__(self, w, dt="float32"):
+        self.w, self.dt, self.calls = w, dt, []
 
     def __call__(self, xs):
         self.calls.append(record(xs))
-        return torch.tensor([D.hash_vec(str(x), self.w) for x in xs], dtype=torch.float32).reshape(len(xs), self.w)
+        return torch.tensor([emb_vals(str(x), self.w, self.dt) for x in xs],
+                            dtype=EMB_DTYPES[self.dt]).reshape(len(xs), self.w)
 
 
 class ImageEmbedderStub(ImageEmbedder):
     """"Images" are the path strings themselves (no PIL); records what retrieval receives."""
 
-    def __init__(self, w):
+    def __init__(self, w, dt="float32"):
         super().__init__()
-        self.w, self.calls, self.embed_sizes = w, [], []
+        self.w, self.dt, self.calls, self.embed_sizes = w, dt, [], []
 
     def forward_retrieve(self, path_to_images):
         self.calls.append(record(path_to_images))
@@ -121,29 +145,100 @@ class ImageEmbedderStub(ImageEmbedder):
 
     def forward_embed(self, images):
         self.embed_sizes.append(len(images))
-        return torch.tensor([D.hash_vec(str(x)[4:], self.w) for x in images],
-                            dtype=torch.float32).reshape(len(images), self.w)
+        return torch.tensor([emb_vals(str(x)[4:], self.w, self.dt) for x in images],
+                            dtype=EMB_DTYPES[self.dt]).reshape(len(images), self.w)
+
+
+# ---- real image files (default ImageEmbedder.forward_retrieve): tiny PNGs whose pixels encode the file's id
+try:
+    from PIL import Image as PILImage
+    HAVE_PIL = True
+except Exception:  # pragma: no cover
+    HAVE_PIL = False
+N_IMAGES = 6
+_IMG_DIR = [None]
+
+
+def img_dir():
+    """Directory of the PNG files, created on first use and removed when the check exits."""
+    if _IMG_DIR[0] is None:
+        d = tempfile.mkdtemp(prefix="c16_img_")
+        atexit.register(shutil.rmtree, d, True)
+        for k in range(N_IMAGES):
+            PILImage.new("RGB", (2, 2), (10 * k + 5, 200 - 7 * k, k)).save(os.path.join(d, f"img{k}.png"))
+        _IMG_DIR[0] = d
+    return _IMG_DIR[0]
+
+
+def img_id(path):
+    return int(os.path.basename(path)[3:-4])
+
+
+def img_vals(k, w):
+    """Output row of RealImageEmbedderStub for image file k (small ints: exact in every dtype)."""
+    return [(k + 1) * 4 + t for t in range(w)]
+
+
+class RealImageEmbedderStub(ImageEmbedderStub):
+    """A user subclass of the public ImageEmbedder that implements only forward_embed: the library's default
+    forward_retrieve opens the files (this class only records what it was given before delegating to it).
+    The embedding is derived from the pixel content."""
+
+    def __init__(self, w, dt="float32"):
+        super().__init__(w, dt)
+        self.embed_ids = []
+
+    def forward_retrieve(self, path_to_images):
+        self.calls.append(record(path_to_images))
+        return ImageEmbedder.forward_retrieve(self, path_to_images)
+
+    def forward_embed(self, images):
+        ids = [im.getpixel((0, 0))[2] for im in images]
+        self.embed_sizes.append(len(images))
+        self.embed_ids.append(ids)
+        return torch.tensor([img_vals(k, self.w) for k in ids], dtype=EMB_DTYPES[self.dt]).reshape(len(ids), self.w)
+
+
+# ---- the Mapping flavours a tokenizer may return (HuggingFace's BatchEncoding is a UserDict)
+class CustomMapping(collections.abc.Mapping):
+    def __init__(self, d):
+        self._d = dict(d)
+
+    def __getitem__(self, k):
+        return self._d[k]
+
+    def __iter__(self):
+        return iter(self._d)
+
+    def __len__(self):
+        return len(self._d)
+
+
+MAP_KINDS = {"dict": dict, "userdict": collections.UserDict, "proxy": lambda d: types.MappingProxyType(dict(d)),
+             "custom": CustomMapping}
 
 
 class TokenizerStub:
-    def __init__(self, variant, nkeys):
+    def __init__(self, variant, nkeys, map_kind="dict"):
         self.variant, self.nkeys, self.calls = tuple(variant), nkeys, []
+        self.wrap = MAP_KINDS[map_kind]
 
     def __call__(self, xs):
         self.calls.append(record(xs))
         rows = tok_rows(self.variant, self.nkeys, [str(x) for x in xs])
         if self.variant[0] == "list":
-            return [{k: torch.tensor(v, dtype=torch.long) for k, v in r.items()} for r in rows]
-        return {k: torch.tensor([r[k] for r in rows], dtype=torch.long).reshape(len(rows), -1)
-                for k in TOK_KEYS[:self.nkeys]}
+            return [self.wrap({k: torch.tensor(v, dtype=torch.long) for k, v in r.items()}) for r in rows]
+        return self.wrap({k: torch.tensor([r[k] for r in rows], dtype=torch.long).reshape(len(rows), -1)
+                          for k in TOK_KEYS[:self.nkeys]})
 
 
 def make_stub(col):
     if col["stype"] == "text_embedded":
-        return TextEmbedderStub(col["w"])
+        return TextEmbedderStub(col["w"], col.get("emb_dtype", "float32"))
     if col["stype"] == "image_embedded":
-        return ImageEmbedderStub(col["w"])
-    return TokenizerStub(col["tok"], col["nkeys"])
+        cls = RealImageEmbedderStub if col.get("real_images") else ImageEmbedderStub
+        return cls(col["w"], col.get("emb_dtype", "float32"))
+    return TokenizerStub(col["tok"], col["nkeys"], col.get("map_kind", "dict"))
 
 
 def make_cfg(col, stub):
@@ -171,9 +266,15 @@ def gen_col(rng, name, st, n, bs=None, variant=None, miss_p=None, dtype=None, na
     if st == "text_tokenized":
         col["tok"] = list(variant or rng.pick(TOK_VARIANTS))
         col["nkeys"] = rng.randint(1, 3)
+        col["map_kind"] = rng.pick(["dict", "dict", "userdict", "proxy", "custom"])
     else:
         col["w"] = rng.randint(1, 3)
+        col["emb_dtype"] = rng.wpick([(5, "float32"), (3, "float64"), (1, "int64"), (1, "float16")])
     return col
+
+
+def gen_cells(rng, n, miss_p):
+    return [None if rng.chance(miss_p) else gen_string(rng) for _ in range(n)]
 
 
 def gen_case(rng):
@@ -201,10 +302,40 @@ def gen_case(rng):
                             c[f] = same[0][f]
     case = {"n": n, "index": rng.pick(["range", "range", "offset", "perm", "string", "dup"]), "cols": cols,
             "via": via, "shared": shared, "extra_num": via == "dataset" and rng.chance(0.3)}
+    # image columns holding paths of real files, served by a subclass that relies on the library's default retrieval
+    # (repeated paths within a chunk are the point; a missing path cannot be opened, so no missing cells)
+    for c in cols:
+        if HAVE_PIL and c["stype"] == "image_embedded" and "image_embedded" not in shared and rng.chance(0.45):
+            c["real_images"] = True
+            pool = rng.sample(range(N_IMAGES), rng.randint(1, 3))
+            c["cells"] = [f"img{rng.pick(pool)}.png" for _ in range(n)]
+    if via == "dataset":
+        # the embedded columns of one frame are concatenated into one container: one output dtype for all of them
+        embs = [c for c in cols if c["stype"] != "text_tokenized"]
+        for c in embs:
+            c["emb_dtype"] = embs[0]["emb_dtype"]
     order = [c["name"] for c in cols]
     rng.shuffle(order)
     case["col_order"] = order
+    # history: the SAME mapper objects (via mapper) / the dataset's converter (via dataset) are applied to further
+    # DataFrames of other lengths; each result must be what a fresh mapper gives
+    case["more"] = []
+    for _ in range(rng.wpick([(5, 0), (3, 1), (2, 2)])):
+        m = rng.randint(1, 7)
+        case["more"].append({"n": m, "index": rng.pick(["range", "offset", "dup"]),
+                             "cells": {c["name"]: ([f"img{rng.randint(0, 2)}.png" for _ in range(m)]
+                                                   if c.get("real_images") else gen_cells(rng, m, rng.pick([0.0, 0.3])))
+                                       for c in cols}})
     return case
+
+
+def views(case):
+    """The frames of a case's history as case-like dicts (frame 0 = the case itself)."""
+    out = [case]
+    for m in case.get("more", []):
+        out.append(dict(case, n=m["n"], index=m["index"],
+                        cols=[dict(c, cells=m["cells"][c["name"]]) for c in case["cols"]]))
+    return out
 
 
 def exhaustive(rng):
@@ -212,13 +343,22 @@ def exhaustive(rng):
     out = []
     for n in range(1, 6):
         for bs in [0] + list(range(1, n + 2)):              # 0 stands for None
-            for st, variant in [("text_embedded", None), ("image_embedded", None)] + \
+            for st, variant in [("text_embedded", None), ("image_embedded", None), ("image_embedded", "real")] + \
                     [("text_tokenized", v) for v in TOK_VARIANTS]:
                 for dtype in ("object", "str", "string"):
-                    col = gen_col(rng, "txt", st, n, bs=bs, variant=variant, miss_p=0.0, dtype=dtype)
-                    col["cells"][rng.randint(0, n - 1)] = None
+                    real = variant == "real"
+                    if real and not HAVE_PIL:
+                        continue
+                    col = gen_col(rng, "txt", st, n, bs=bs, variant=None if real else variant, miss_p=0.0, dtype=dtype)
+                    if real:
+                        col["real_images"] = True
+                        col["cells"] = [f"img{(r * r) % 3}.png" for r in range(n)]       # repeated paths
+                    else:
+                        col["cells"][rng.randint(0, n - 1)] = None
+                    if st == "text_tokenized":
+                        col["map_kind"] = ["dict", "userdict", "proxy", "custom"][(n + bs) % 4]
                     out.append({"n": n, "index": "range", "cols": [col], "via": "dataset", "shared": [],
-                                "extra_num": False, "col_order": ["txt"]})
+                                "extra_num": False, "col_order": ["txt"], "more": []})
     return out
 
 
@@ -233,6 +373,11 @@ def generate(rng, tier):
 
 
 # -------------------------------------------------------------- implementation
+def cell_text(col, c):
+    """The string a non-missing cell holds (for a real-image column the path of the file)."""
+    return os.path.join(img_dir(), c) if col.get("real_images") else c
+
+
 def missing_value(nk):
     return {"none": None, "nan": np.nan, "pynan": float("nan"), "NA": pd.NA}[nk]
 
@@ -243,7 +388,7 @@ def build_df(case):
     for name in case["col_order"]:
         col = by[name]
         mv = missing_value(col["nan_kind"])
-        vals = [mv if c is None else c for c in col["cells"]]
+        vals = [mv if c is None else cell_text(col, c) for c in col["cells"]]
         data[name] = pd.Series(vals, dtype={"str": "str", "string": "string"}.get(col["dtype"], object))
     if case.get("extra_num"):
         data["num"] = pd.Series([float(i) for i in range(case["n"])], dtype=float)
@@ -254,15 +399,38 @@ def build_df(case):
     return df
 
 
-def read_stub(stub):
-    o = {"calls": list(stub.calls)}
+def stub_mark(stub):
+    return (len(stub.calls), len(getattr(stub, "embed_sizes", [])))
+
+
+def read_stub(stub, mark=(0, 0)):
+    """What the stub recorded since `mark`."""
+    o = {"calls": list(stub.calls[mark[0]:])}
     if isinstance(stub, ImageEmbedderStub):
-        o["embed_sizes"] = list(stub.embed_sizes)
+        o["embed_sizes"] = list(stub.embed_sizes[mark[1]:])
+    if isinstance(stub, RealImageEmbedderStub):
+        o["embed_ids"] = list(stub.embed_ids[mark[1]:])
     return o
 
 
+def read_column(col, tfj):
+    rec = {}
+    parent = "text_tokenized" if col["stype"] == "text_tokenized" else "embedding"
+    names = tfj["names"].get(parent, [])
+    if col["name"] not in names:
+        rec["missing_in_frame"] = True
+        return rec
+    j = names.index(col["name"])
+    feat = tfj["feats"][parent]
+    if parent == "text_tokenized":
+        rec["rows"] = {k: [r[j] for r in v] for k, v in feat.items()}
+    else:
+        rec["rows"] = [r[j] for r in feat]
+    rec["num_rows"] = tfj["num_rows"]
+    return rec
+
+
 def run(case):
-    df = build_df(case)
     stubs, shared_stub = {}, {}
     for col in case["cols"]:
         st = col["stype"]
@@ -272,63 +440,82 @@ def run(case):
             stubs[col["name"]] = shared_stub[st]
         else:
             stubs[col["name"]] = make_stub(col)
-    obs = {"cols": {}}
+    frames = []
+    vs = views(case)
     if case["via"] == "mapper":
+        # one mapper object per column, used for every frame of the history
+        mappers = {}
         for col in case["cols"]:
-            stub = stubs[col["name"]]
-            rec = {}
-            try:
-                if col["stype"] == "text_tokenized":
-                    out = TextTokenizationTensorMapper(stub, col["batch_size"]).forward(df[col["name"]])
-                    rec["rows"] = {k: [r[0] for r in D.read_feat(v)] for k, v in out.items()}
-                else:
-                    out = EmbeddingTensorMapper(stub, col["batch_size"]).forward(df[col["name"]])
-                    rec["rows"] = [r[0] for r in D.read_feat(out)]
-                    rec["num_rows"] = out.num_rows
-            except Exception as ex:
-                rec["exc"] = C.exc_name(ex)
-                rec["msg"] = str(ex)[:200]
-            rec.update(read_stub(stub))
-            obs["cols"][col["name"]] = rec
-        return obs
-    # through Dataset: the configs are given per column, or one config object per stype
-    kw = {}
-    for st in STYPES:
-        same = [c for c in case["cols"] if c["stype"] == st]
-        if not same:
-            continue
-        if st in case["shared"]:
-            kw[FAMILY[st]] = make_cfg(same[0], shared_stub[st])
-        else:
-            kw[FAMILY[st]] = {c["name"]: make_cfg(c, stubs[c["name"]]) for c in same}
-    col_to_stype = {name: getattr(torch_frame, next(c for c in case["cols"] if c["name"] == name)["stype"])
-                    for name in case["col_order"]}
-    if case.get("extra_num"):
-        col_to_stype["num"] = torch_frame.numerical
-    try:
-        ds = Dataset(df, col_to_stype, **kw)
-        ds.materialize()
-        tfj = D.read_tf(ds.tensor_frame)
-    except Exception as ex:
-        obs["exc"] = C.exc_name(ex)
-        obs["msg"] = str(ex)[:200]
-        tfj = None
-    for col in case["cols"]:
-        rec = read_stub(stubs[col["name"]])
-        if tfj is not None:
-            parent = "text_tokenized" if col["stype"] == "text_tokenized" else "embedding"
-            names = tfj["names"].get(parent, [])
-            if col["name"] not in names:
-                rec["missing_in_frame"] = True
+            cls = TextTokenizationTensorMapper if col["stype"] == "text_tokenized" else EmbeddingTensorMapper
+            mappers[col["name"]] = cls(stubs[col["name"]], col["batch_size"])
+        for v in vs:
+            df = build_df(v)
+            o = {"cols": {}}
+            for col in v["cols"]:
+                stub = stubs[col["name"]]
+                mark = stub_mark(stub)
+                rec = {}
+                try:
+                    out = mappers[col["name"]].forward(df[col["name"]])
+                    if col["stype"] == "text_tokenized":
+                        rec["rows"] = {k: [r[0] for r in D.read_feat(x)] for k, x in out.items()}
+                    else:
+                        rec["rows"] = [r[0] for r in D.read_feat(out)]
+                        rec["num_rows"] = out.num_rows
+                        rec["dtype"] = str(out.values.dtype).replace("torch.", "")
+                except Exception as ex:
+                    rec["exc"] = C.exc_name(ex)
+                    rec["msg"] = str(ex)[:200]
+                rec.update(read_stub(stub, mark))
+                o["cols"][col["name"]] = rec
+            frames.append(o)
+    else:
+        # through Dataset: the configs are given per column, or one config object per stype; frame 0 is
+        # materialized, the further frames go through the dataset's converter
+        kw = {}
+        for st in STYPES:
+            same = [c for c in case["cols"] if c["stype"] == st]
+            if not same:
+                continue
+            if st in case["shared"]:
+                kw[FAMILY[st]] = make_cfg(same[0], shared_stub[st])
             else:
-                j = names.index(col["name"])
-                feat = tfj["feats"][parent]
-                if parent == "text_tokenized":
-                    rec["rows"] = {k: [r[j] for r in v] for k, v in feat.items()}
+                kw[FAMILY[st]] = {c["name"]: make_cfg(c, stubs[c["name"]]) for c in same}
+        col_to_stype = {name: getattr(torch_frame, next(c for c in case["cols"] if c["name"] == name)["stype"])
+                        for name in case["col_order"]}
+        if case.get("extra_num"):
+            col_to_stype["num"] = torch_frame.numerical
+        ds = None
+        for k, v in enumerate(vs):
+            df = build_df(v)
+            o = {"cols": {}}
+            marks = {name: stub_mark(st_) for name, st_ in stubs.items()}
+            tfj = None
+            try:
+                if k == 0:
+                    ds = Dataset(df, col_to_stype, **kw)
+                    ds.materialize()
+                    tf = ds.tensor_frame
                 else:
-                    rec["rows"] = [r[j] for r in feat]
-                rec["num_rows"] = tfj["num_rows"]
-        obs["cols"][col["name"]] = rec
+                    tf = ds.convert_to_tensor_frame(df)
+                tfj = D.read_tf(tf)
+                emb = tf.feat_dict.get(torch_frame.embedding)
+                edt = None if emb is None else str(emb.values.dtype).replace("torch.", "")
+            except Exception as ex:
+                o["exc"] = C.exc_name(ex)
+                o["msg"] = str(ex)[:200]
+            for col in v["cols"]:
+                rec = read_stub(stubs[col["name"]], marks[col["name"]])
+                if tfj is not None:
+                    rec.update(read_column(col, tfj))
+                    if col["stype"] != "text_tokenized":
+                        rec["dtype"] = edt
+                o["cols"][col["name"]] = rec
+            frames.append(o)
+            if ds is None:
+                break
+    obs = frames[0]
+    obs["more"] = frames[1:]
     return obs
 
 
@@ -339,7 +526,7 @@ def rendered(col):
     out = []
     for c in col["cells"]:
         if c is not None:
-            out.append(c)
+            out.append(cell_text(col, c))
         elif col["dtype"] == "str":
             out.append("nan")          # the NaN-backed native string dtype holds NaN for every missing value
         elif col["dtype"] == "string":
@@ -360,7 +547,14 @@ def expected_rows(col, chunks):
         keys = TOK_KEYS[:col["nkeys"]]
         rows = [r for ch in chunks for r in tok_rows(tuple(col["tok"]), col["nkeys"], ch)]
         return {k: [r[k] for r in rows] for k in keys}
-    return [D.hash_vec(s, col["w"]) for ch in chunks for s in ch]
+    return [row_vals(col, s) for ch in chunks for s in ch]
+
+
+def row_vals(col, s):
+    """The embedder stub's output row for the string s of column col."""
+    if col.get("real_images"):
+        return img_vals(img_id(s), col["w"])
+    return emb_vals(s, col["w"], col.get("emb_dtype", "float32"))
 
 
 def split_shared(case, obs):
@@ -399,20 +593,53 @@ def col_calls(case, obs):
 def oracle(case, obs):
     if "harness_exc" in obs:
         return dict(key="harness-exc", what="harness failed to run the case: " + obs["harness_exc"], tb=obs.get("tb"))
+    vs = views(case)
+    frames = [obs] + list(obs.get("more", []))
+    if len(frames) != len(vs):
+        return dict(key="history-aborted", what=f"only {len(frames)} of {len(vs)} frames of the history were converted")
+    for k, (v, o) in enumerate(zip(vs, frames)):
+        f = oracle_frame(v, o)
+        if f is not None:
+            if k > 0:
+                # every use of the same mapper / converter must behave like a fresh one
+                f["key"] += ":reuse"
+                f["what"] = f"on use #{k + 1} of the same {'mapper object' if case['via'] == 'mapper' else 'converter'}: " \
+                            + f["what"]
+                f["frame"] = k
+            return f
+    return None
+
+
+def col_tag(col):
+    mode = "unbatched" if col["batch_size"] is None else "batched"
+    return f"{col['stype']}:{'/'.join(col['tok']) if col['stype'] == 'text_tokenized' else 'emb'}:{mode}"
+
+
+def oracle_frame(case, obs):
     calls_of = col_calls(case, obs)
+    # 1. only lists of Python strings (every call of every column, whatever happened afterwards)
     for col in case["cols"]:
         st = col["stype"]
-        mode = "unbatched" if col["batch_size"] is None else "batched"
-        tag = f"{st}:{'/'.join(col['tok']) if st == 'text_tokenized' else 'emb'}:{mode}"
-        rec = obs["cols"][col["name"]]
-        # 1. only lists of Python strings
-        for call in rec["calls"]:
+        for call in obs["cols"][col["name"]]["calls"]:
             if call["container"] != "list":
                 return dict(key=f"nonlist-arg:{st}", what=f"the {st} callable received a {call['container']}, not a list")
             bad = [e for e in call["elems"] if type(e) is not str]     # record() keeps str only if type(x) is str
             if bad:
                 return dict(key=f"nonstr-arg:{st}", what=f"the {st} callable of column {col['name']!r} received a "
                             f"{bad[0]['nonstr']} ({bad[0]['repr']}) instead of a string", observed=call)
+    if "exc" in obs:
+        # the conversion of the whole frame raised: columns processed later were never reached, so attribute the
+        # raise to the column whose callable was served completely (its assembly failed), else to the first one
+        def served(c):
+            got = calls_of[c["name"]]
+            return got is not None and [x["elems"] for x in got] == py_chunks(rendered(c), c["batch_size"])
+        done = [c for c in case["cols"] if served(c)]
+        culprit = (done or case["cols"])[-1] if done else case["cols"][0]
+        return dict(key=f"raises:{col_tag(culprit)}", what=f"raised {obs['exc']}: {obs.get('msg')}")
+    for col in case["cols"]:
+        st = col["stype"]
+        tag = col_tag(col)
+        rec = obs["cols"][col["name"]]
         # 2. every row exactly once, in row order, in consecutive chunks of at most batch_size
         want = py_chunks(rendered(col), col["batch_size"])
         got = calls_of[col["name"]]
@@ -421,6 +648,12 @@ def oracle(case, obs):
             return dict(key=f"calls:{tag}", what=f"the {st} callable of column {col['name']!r} (batch_size="
                         f"{col['batch_size']}) was not called with the consecutive chunks of the rendered column",
                         expected=want, observed=got_elems if got_elems is not None else rec["calls"])
+        if col.get("real_images"):
+            want_ids = [[img_id(x) for x in w] for w in want]
+            if rec.get("embed_ids") != want_ids:
+                return dict(key="image-embed-args", what=f"forward_embed of column {col['name']!r} did not receive exactly "
+                            f"one image per row of each chunk, in row order (image ids by pixel content)",
+                            expected=want_ids, observed=rec.get("embed_ids"))
         if st == "image_embedded" and rec.get("embed_sizes") is not None and col["name"] in obs["cols"] \
                 and st not in case["shared"] and rec["embed_sizes"] != [len(w) for w in want]:
             return dict(key="image-embed-calls", what="forward_embed was not called once per retrieved batch",
@@ -431,6 +664,10 @@ def oracle(case, obs):
                                                    f"{obs.get('msg') or rec.get('msg')}")
         if rec.get("missing_in_frame"):
             return dict(key=f"column-missing:{st}", what=f"column {col['name']!r} is not in the materialized frame")
+        if st != "text_tokenized" and rec.get("dtype") != col.get("emb_dtype", "float32"):
+            return dict(key=f"dtype:{tag}", what=f"the embedder of column {col['name']!r} returns "
+                        f"{col.get('emb_dtype', 'float32')} but the frame holds {rec.get('dtype')}",
+                        expected=col.get("emb_dtype", "float32"), observed=rec.get("dtype"))
         exp = expected_rows(col, want)
         if rec.get("rows") != exp or (st != "text_tokenized" and rec.get("num_rows") != case["n"]):
             return dict(key=f"rows:{tag}", what=f"row i of the result for column {col['name']!r} is not the callable's "
@@ -441,6 +678,14 @@ def oracle(case, obs):
 # ----------------------------------------------------------------------- shrink
 def shrink(case):
     cols = case["cols"]
+    more = case.get("more", [])
+    for k in range(len(more)):
+        yield dict(case, more=more[:k] + more[k + 1:])
+    for k, m in enumerate(more):
+        if m["n"] > 1:
+            for r in range(m["n"]):
+                m2 = dict(m, n=m["n"] - 1, cells={name: cs[:r] + cs[r + 1:] for name, cs in m["cells"].items()})
+                yield dict(case, more=more[:k] + [m2] + more[k + 1:])
     if len(cols) > 1:
         for k in range(len(cols)):
             rest = cols[:k] + cols[k + 1:]
@@ -455,8 +700,9 @@ def shrink(case):
             yield dict(case, n=case["n"] - 1, cols=[dict(c, cells=c["cells"][:r] + c["cells"][r + 1:]) for c in cols])
     for k, c in enumerate(cols):
         for r, v in enumerate(c["cells"]):
-            if v not in (None, "a"):
-                yield dict(case, cols=cols[:k] + [dict(c, cells=c["cells"][:r] + ["a"] + c["cells"][r + 1:])] + cols[k + 1:])
+            simple = "img0.png" if c.get("real_images") else "a"
+            if v not in (None, simple) and not (c.get("real_images") and simple in c["cells"]):
+                yield dict(case, cols=cols[:k] + [dict(c, cells=c["cells"][:r] + [simple] + c["cells"][r + 1:])] + cols[k + 1:])
         if c["stype"] == "text_tokenized" and c["nkeys"] > 1:
             yield dict(case, cols=cols[:k] + [dict(c, nkeys=1)] + cols[k + 1:])
 
@@ -469,10 +715,11 @@ def bs_rel(n, bs):
 
 
 def nontrivial_sig(case, obs):
-    sig = [case["via"], case["shared"], case["index"] == "dup"]
+    sig = [case["via"], case["shared"], case["index"] == "dup", [m["n"] for m in case.get("more", [])]]
     for c in case["cols"]:
         miss = sorted({c["nan_kind"] for v in c["cells"] if v is None})
-        sig.append([c["stype"], c["dtype"], miss, bs_rel(case["n"], c["batch_size"]), c.get("tok")])
+        sig.append([c["stype"], c["dtype"], miss, bs_rel(case["n"], c["batch_size"]), c.get("tok"), c.get("emb_dtype"),
+                    c.get("map_kind"), c.get("real_images")])
     return json.dumps(sig)
 
 
@@ -488,6 +735,8 @@ def stats(cases, obss):
         d["index"][c["index"]] = d["index"].get(c["index"], 0) + 1
         d["n"][c["n"]] = d["n"].get(c["n"], 0) + 1
         d["shared"] += bool(c["shared"])
+        h = f"{c['via']}:{len(c.get('more', []))}"
+        d.setdefault("history", {})[h] = d.setdefault("history", {}).get(h, 0) + 1
         if o and ("exc" in o or any("exc" in r for r in o.get("cols", {}).values())):
             d["error_cases"] += 1
         for col in c["cols"]:
@@ -501,6 +750,15 @@ def stats(cases, obss):
             if col["stype"] == "text_tokenized":
                 k = "/".join(col["tok"])
                 d["tok_variant"][k] = d["tok_variant"].get(k, 0) + 1
+                k = col["tok"][0] + "/" + col.get("map_kind", "dict") + ("/unbatched" if col["batch_size"] is None else "/batched")
+                d.setdefault("map_kind", {})[k] = d.setdefault("map_kind", {}).get(k, 0) + 1
+            else:
+                if col.get("real_images"):
+                    rep = len(set(col["cells"])) < len(col["cells"])
+                    k = ("repeated" if rep else "distinct") + ("/unbatched" if col["batch_size"] is None else "/batched")
+                    d.setdefault("real_images", {})[k] = d.setdefault("real_images", {}).get(k, 0) + 1
+                k = col.get("emb_dtype", "float32") + ("/unbatched" if col["batch_size"] is None else "/batched")
+                d.setdefault("emb_dtype", {})[k] = d.setdefault("emb_dtype", {}).get(k, 0) + 1
     return d
 
 
@@ -538,6 +796,22 @@ def sanity(cases, obss):
             probs.append(f"index labeling {k} never drawn")
     if not d["shared"]:
         probs.append("shared (single) config never drawn")
+    for via in (["mapper"] if HAVE_MAPPERS else []) + ["dataset"]:
+        if not (d.get("history", {}).get(f"{via}:1", 0) + d.get("history", {}).get(f"{via}:2", 0)):
+            probs.append(f"no history (second use of the same mapper / converter) via {via}")
+    for fmt in ("list", "dict"):
+        for mk in MAP_KINDS:
+            for mode in ("batched", "unbatched"):
+                if not d.get("map_kind", {}).get(f"{fmt}/{mk}/{mode}"):
+                    probs.append(f"tokenizer returning {mk} mappings in {fmt} format never drawn {mode}")
+    if HAVE_PIL:
+        for mode in ("batched", "unbatched"):
+            if not d.get("real_images", {}).get(f"repeated/{mode}"):
+                probs.append(f"real image files with repeated paths never drawn {mode}")
+    for dt in EMB_DTYPES:
+        for mode in ("batched", "unbatched"):
+            if not d.get("emb_dtype", {}).get(f"{dt}/{mode}"):
+                probs.append(f"embedder output dtype {dt} never drawn {mode}")
     if HAVE_MAPPERS and not d["via"].get("mapper"):
         probs.append("direct mapper path never drawn")
     if not d["via"].get("dataset"):
@@ -572,7 +846,7 @@ def cvec(v, scale=1):
 
 def ccell(col, v):
     if v is not None:
-        return f"CStr {cstr(v)}"
+        return f"CStr {cstr(cell_text(col, v))}"
     return {"none": "CNone", "nan": "CNaN", "pynan": "CNaN", "NA": "CNA"}[col["nan_kind"]]
 
 
@@ -594,7 +868,8 @@ def table_literal(col, chunks):
         if col["stype"] == "text_tokenized":
             o = tok_out_literal(col, ch)
         else:
-            o = C.clist(ch, lambda s: cvec(D.hash_vec(s, col["w"]), 8))
+            dt = col.get("emb_dtype", "float32")
+            o = C.clist(ch, lambda s: cvec(row_vals(col, s), EMB_SCALE[dt]))
         ents.append(f"({cstrs(ch)}, {o})")
     return C.clist(ents)
 
@@ -602,6 +877,14 @@ def table_literal(col, chunks):
 def coq_term(case, obs):
     if "cols" not in obs:
         return None
+    # the model is stateless: every frame of a history is an independent evaluation ("equals a fresh mapper")
+    parts = []
+    for v, o in zip(views(case), [obs] + list(obs.get("more", []))):
+        parts.append(coq_term_frame(v, o))
+    return "(" + " && ".join(parts) + ")"
+
+
+def coq_term_frame(case, obs):
     calls_of = col_calls(case, obs)
     terms = []
     for st in STYPES:
@@ -637,6 +920,7 @@ def coq_term(case, obs):
                 terms.append(f"c16_tok_obs_eqb (c16_tok_col {cfgs} {cstr(c['name'])} {dt} {raw}) (Some ({calls}, {res}))")
             else:
                 res = "None" if failed else \
-                    f"(Some ({C.cnat(rec['num_rows'])}, {C.clist(rec['rows'], lambda v: cvec(v, 8))}))"
+                    f"(Some ({C.cnat(rec['num_rows'])}, " \
+                    f"{C.clist(rec['rows'], lambda v: cvec(v, EMB_SCALE[c.get('emb_dtype', 'float32')]))}))"
                 terms.append(f"c16_emb_obs_eqb (c16_emb_col {cfgs} {cstr(c['name'])} {dt} {raw}) (Some ({calls}, {res}))")
     return "(" + " && ".join(terms) + ")"
